@@ -32,9 +32,17 @@
     session) only: equal for any two brokers / session tables that
     agree on s and on k's session                                      C12_independent
   stored history entries never contain a publisher key                 C12_history_no_identity
+  realm level (`Realm.handlePublish`): disclose_me = true while the
+    realm disallows disclosure → nothing is delivered to anybody, no
+    history entry, no publication id drawn, exactly one ERROR
+    option_disallowed.disclose_me to the publisher iff acknowledged    C12_refused_publish
+  … and only then: `p.disclose` of the publication handed to the
+    broker is set iff disclose_me is the bool true (and then the realm
+    allows disclosure)                                                 C12_disclose_flag
 -/
 import Nexus.L2.Proofs.BrokerHist
 import Nexus.L2.Proofs.BrokerBase
+import Nexus.L2.Proofs.RealmPublish
 
 namespace Nexus.C12
 open Nexus.L2 Gen.N
@@ -176,5 +184,78 @@ theorem C12_history_no_identity_init (strict allowDisclose : Bool) (cfg : List (
   intro h hh e he
   rw [preInit_entries cfg _ (by simp) h hh] at he
   simp at he
+
+/-! ### realm level: the refusal -/
+
+open Realm in
+/-- PUBLISH (valid topic, payload passthru not refused) asking for `disclose_me` in a realm that does
+    not allow disclosure: the publication is REFUSED — no EVENT is delivered to anybody (every queue
+    other than the publisher's own is untouched), nothing is stored (the broker, hence every history
+    store, is unchanged), no publication id is drawn — and the publisher's queue is offered exactly one
+    ERROR(PUBLISH, req, wamp.error.option_disallowed.disclose_me) iff `acknowledge` is the bool true
+    (dropped, changing nothing, if that queue is full); without acknowledgement nothing happens at all. -/
+theorem C12_refused_publish (r : Realm) (s : Session) (req : Nat) (opts : Dict) (topic : String)
+    (args : List WVal) (kw : Dict) (hv : validUri r.broker.strict "" topic = true)
+    (hp : pptRefused s opts = false)
+    (hdis : opts.get? OptDiscloseMe = some (.bool true)) (hrealm : r.broker.allowDisclose = false) :
+    (opts.optFlag OptAcknowledge = false → handlePublish r s req opts topic args kw = r) ∧
+    (opts.optFlag OptAcknowledge = true →
+      handlePublish r s req opts topic args kw =
+        r.trySend ⟨s.key, .error tPUBLISH req [] ErrOptionDisallowedDiscloseMe [] []⟩ ∧
+      ∀ c, s.key ≠ metaKey → r.client? s.key = some c →
+        (c.cap ≤ r.queueLen s.key → handlePublish r s req opts topic args kw = r) ∧
+        (r.queueLen s.key < c.cap →
+          (handlePublish r s req opts topic args kw).queueOf s.key =
+            r.queueOf s.key ++ [.error tPUBLISH req [] ErrOptionDisallowedDiscloseMe [] []])) ∧
+    (∀ k, k ≠ s.key → (handlePublish r s req opts topic args kw).queueOf k = r.queueOf k) ∧
+    (handlePublish r s req opts topic args kw).broker = r.broker ∧
+    (handlePublish r s req opts topic args kw).pubCount = r.pubCount ∧
+    (handlePublish r s req opts topic args kw).clients = r.clients := by
+  have hd : discloseRefused r opts = true := by
+    unfold discloseRefused
+    rw [(optFlag_iff opts OptDiscloseMe).mpr hdis, hrealm]; rfl
+  have heq := handlePublish_refused r s req opts topic args kw hv hp hd
+  have hf := deliver_frame (ackList opts ⟨s.key, errMsg tPUBLISH req ErrOptionDisallowedDiscloseMe⟩) r
+  refine ⟨?_, ?_, ?_, by rw [heq]; exact hf.broker, by rw [heq]; exact hf.pubCount, by rw [heq]; exact hf.clients⟩
+  · intro ha; rw [heq]; unfold ackList; rw [ha]; rfl
+  · intro ha
+    have heq' : handlePublish r s req opts topic args kw =
+        r.trySend ⟨s.key, .error tPUBLISH req [] ErrOptionDisallowedDiscloseMe [] []⟩ := by
+      rw [heq]; unfold ackList; rw [ha]; rfl
+    refine ⟨heq', ?_⟩
+    intro c hk hc
+    rw [heq']
+    obtain ⟨h1, h2⟩ := trySend_client_effect r ⟨s.key, .error tPUBLISH req [] ErrOptionDisallowedDiscloseMe [] []⟩ hk hc
+    exact ⟨h1, fun hroom => (h2 hroom).1⟩
+  · intro k hk
+    rw [heq]
+    unfold ackList
+    split
+    · show (r.trySend ⟨s.key, _⟩).queueOf k = _
+      rw [queueOf_trySend, if_neg (fun h => hk h.1.symm)]
+    · rfl
+
+/-- non-vacuity -/
+example : validUri false "" "a.b" = true ∧
+    Realm.pptRefused { key := 1, details := [], roles := [], isLocal := false }
+      [("disclose_me", .bool true), ("acknowledge", .bool true)] = false ∧
+    Dict.get? [("disclose_me", .bool true), ("acknowledge", .bool true)] OptDiscloseMe = some (.bool true) ∧
+    ({} : Realm).broker.allowDisclose = false := by
+  refine ⟨by decide +kernel, by decide +kernel, by rfl, rfl⟩
+
+open Realm in
+/-- The `disclose` flag of the publication the realm hands to the broker is exactly "the option
+    `disclose_me` is the bool true"; when it is set and the publication is not refused, the realm
+    allows disclosure.  (So `p.disclose` in `C12_disclose_event` means: requested AND allowed.) -/
+theorem C12_disclose_flag (r : Realm) (s : Session) (opts : Dict) (topic : String) (args : List WVal) (kw : Dict) :
+    ((pubOf r s opts topic args kw).disclose = true ↔ opts.get? OptDiscloseMe = some (.bool true)) ∧
+    ((pubOf r s opts topic args kw).disclose = true → discloseRefused r opts = false →
+      r.broker.allowDisclose = true) := by
+  refine ⟨optFlag_iff opts OptDiscloseMe, ?_⟩
+  intro h1 h2
+  unfold discloseRefused at h2
+  have : opts.optFlag OptDiscloseMe = true := h1
+  rw [this] at h2
+  simpa using h2
 
 end Nexus.C12
